@@ -181,10 +181,22 @@ func (w *c16Worker) Run(path []POp) (bfs.Outcome, error) {
 	}
 	// Share ownership in every state in which instance 2 has an active session.
 	if present, _ := sessionOf(w.c.Nodes[2], account); present {
+		// The contributions are handled one after the other; the replies are serialised only after all of them have
+		// been handled (a server serialises a reply after its handler has returned, beside whatever else it handles).
+		late := map[uint64]func() (*bls.SecretKey, []bls.PublicKey, error){}
 		for _, j := range []uint64{1, 3, 4} {
 			p := rig.NewPoly(2)
-			rs, rv, err := w.c.Nodes[2].RecvContribute(rig.PeerName(j), account, p.Share(2), p.VVec)
+			if f, err := w.c.Nodes[2].RecvContributeLate(rig.PeerName(j), account, p.Share(2), p.VVec); err == nil {
+				late[j] = f
+			}
+		}
+		for _, j := range []uint64{1, 3, 4} {
+			if late[j] == nil {
+				continue
+			}
+			rs, rv, err := late[j]()
 			if err != nil {
+				out.Viol = append(out.Viol, bfs.Viol{Key: fmt.Sprintf("reply-undecodable:to=%d", j), What: fmt.Sprintf("the reply to participant %d's contribution cannot be decoded once the other contributions have been handled: %v", j, err)})
 				continue
 			}
 			shareOf := func(k uint64) []byte {
